@@ -49,6 +49,8 @@ type Set struct {
 	Reader   state.ValidatorReader
 	Total    *big.Int // online chamber stake (what sortition uses as total)
 	Outsider *Member  // a key that is NOT in the validator set
+
+	credCache map[string]Credential
 }
 
 // NewSet creates the validator records in a fresh state and returns the reader consensus uses.
@@ -116,12 +118,33 @@ type Credential struct {
 }
 
 // Sortition runs the real VRF sortition for member m.
+// A validator evaluates its VRF once per (seed, index, step): the proof bytes it gossips are
+// the ones everybody (an attacker replaying them included) has, so credentials are cached and
+// only the seat count is recomputed for other thresholds.
 func (s *Set) Sortition(m *Member, seed common.Hash, index, step uint32, threshold uint64) Credential {
 	if m.Stake == nil || s.Total.Sign() == 0 {
 		return Credential{M: m}
 	}
+	if s.credCache == nil {
+		s.credCache = map[string]Credential{}
+	}
+	key := fmt.Sprintf("%d|%x|%d|%d|%d|%v", m.I, seed, index, step, threshold, m.Stake)
+	if c, ok := s.credCache[key]; ok {
+		return c
+	}
+	base := fmt.Sprintf("%d|%x|%d|%d", m.I, seed, index, step)
 	v, p, j := ucon.VrfSortition(m.Vrf, seed, index, step, threshold, m.Stake, s.Total)
-	return Credential{M: m, Value: v, Proof: p, J: j}
+	if b, ok := s.credCache[base]; ok {
+		// same VRF output (it is a function of key and message), first proof bytes kept
+		if b.Value == v {
+			p = b.Proof
+		}
+	} else {
+		s.credCache[base] = Credential{M: m, Value: v, Proof: p, J: j}
+	}
+	c := Credential{M: m, Value: v, Proof: p, J: j}
+	s.credCache[key] = c
+	return c
 }
 
 // VotePayload is what a vote signs: blockHash || round || roundIndex (no vote kind).
